@@ -51,7 +51,7 @@ def main(tier):
     chk.cov["calls_by_kind"] = acts
     for need in ("SavePostfix", "SaveWholeFile", "SaveCorrupt", "Load", "FromFile", "LoadBadName"):
         if acts.get(need, 0) == 0:
-            raise MachineryError(f"no {need} call was exercised")
+            chk.machinery_doubt(f"no {need} call was exercised")
     chk.sample(dict(kind="behaviour", calls=[s["act"] for s in behs[0][1:]]))
     chk.sample(dict(kind="trace-event", event=next(e for e in events if e["ev"] == "Load")))
 
